@@ -1,4 +1,5 @@
 import Rain.Files
+import Rain.FilesSpec
 import Rain.Lemmas.Files
 /-
 C11 — "Exactly the needed files are on disk: nothing live deleted, nothing dead kept".
@@ -10,12 +11,7 @@ the first deletion pass after reopen — is `C11_monitored_removal_keeps_recover
 -/
 namespace Rain.Files
 
-/-- states the database can be in: at least one version, distinct ids below `nextId`, and (without
-the defect D10) every linked non-current version is referenced by somebody -/
-structure Good (s : State) : Prop where
-  nonempty : s.versions ≠ []
-  ids : (s.versions.map Version.id).Nodup ∧ ∀ v ∈ s.versions, v.id < s.nextId
-  referenced : ∀ v ∈ s.versions, some v = current s ∨ 0 < v.refs
+-- the invariant `Good` (states the database can be in) is defined in `Rain/FilesSpec.lean`
 
 /-- **Nothing live is deleted**: a deletion pass keeps every table of every linked version (the
 current one and every one pinned by a reader, an iterator or a running compaction), every table
